@@ -8,6 +8,8 @@ import Driver.OpsCtc
 import Driver.OpsSym
 import Driver.OpsCov
 import Driver.OpsBuf
+import Driver.OpsSolver
+import Driver.OpsEquiv
 open Ibex Ibex.Proto
 
 def dispatch (op : String) (ins outs : List String) : String :=
@@ -33,6 +35,12 @@ def dispatch (op : String) (ins outs : List String) : String :=
   | some r => r
   | none =>
   match Ibex.Driver.opsBuf op ins outs with
+  | some r => r
+  | none =>
+  match Ibex.Driver.opsSolver op ins outs with
+  | some r => r
+  | none =>
+  match Ibex.Driver.opsEquiv op ins outs with
   | some r => r
   | none => "bad-op"
 
